@@ -15,6 +15,7 @@ type gtok struct {
 	owner    int
 	mintable bool
 	max      *big.Int // whole units
+	initial  *big.Int // whole units
 	supply   *big.Int // min units
 	bal      map[int]*big.Int
 	deployed bool
@@ -96,7 +97,7 @@ func (g *gstate) issue(owner int) Op {
 	}
 	sup := new(big.Int).Mul(initial, pow10(scale))
 	t := &gtok{sym: op.Sym, min: op.Min, scale: scale, owner: owner, mintable: mintable, max: eff, supply: sup,
-		bal: map[int]*big.Int{owner: new(big.Int).Set(sup)}}
+		initial: new(big.Int).Set(initial), bal: map[int]*big.Int{owner: new(big.Int).Set(sup)}}
 	g.toks = append(g.toks, t)
 	g.usedS[op.Sym] = true
 	g.usedM[op.Min] = true
@@ -215,7 +216,9 @@ func (g *gstate) edit(t *gtok) Op {
 	unit := pow10(t.scale)
 	fl := new(big.Int).Div(t.supply, unit)
 	var max *big.Int
-	switch r.Weighted(4, 2, 2, 2, 2, 1) {
+	switch r.Weighted(4, 2, 2, 2, 2, 1, 2) {
+	case 6: // around the initial supply (a maximum below it is refused even when less circulates)
+		max = new(big.Int).Add(t.initial, big.NewInt(int64(r.Intn(3)-1)))
 	case 0:
 		max = fl
 	case 1:
@@ -244,7 +247,8 @@ func (g *gstate) edit(t *gtok) Op {
 	if r.Chance(1, 30) {
 		op.Nm = -1
 	}
-	ceilOK := new(big.Int).Mul(max, unit).Cmp(t.supply) >= 0
+	// accepted: not below what circulates (in min units) and not below the initial supply
+	ceilOK := new(big.Int).Mul(max, unit).Cmp(t.supply) >= 0 && max.Cmp(t.initial) >= 0
 	if owner == t.owner && op.Nm >= 0 && (max.Sign() == 0 || ceilOK) {
 		if max.Sign() > 0 {
 			t.max = max
@@ -344,7 +348,7 @@ func genC09(r *lib.Rand, tier string) History {
 					// symbol equal to another token's min unit: allowed by the code
 					op.Sym = prev.min
 					g.toks = append(g.toks, &gtok{sym: op.Sym, min: op.Min, scale: op.Scale, owner: op.A, mintable: op.Mintable == 1,
-						max: effMax(op), supply: new(big.Int).Mul(bigOf(op.Initial), pow10(op.Scale)),
+						max: effMax(op), initial: bigOf(op.Initial), supply: new(big.Int).Mul(bigOf(op.Initial), pow10(op.Scale)),
 						bal: map[int]*big.Int{op.A: new(big.Int).Mul(bigOf(op.Initial), pow10(op.Scale))}})
 				}
 			}
@@ -419,6 +423,7 @@ func genERC20(r *lib.Rand, tier string) History {
 		t := g.toks[len(g.toks)-1]
 		t.mintable = true
 		t.max = new(big.Int).Set(maxU64)
+		t.initial = bigOf(op.Initial)
 		t.supply = new(big.Int).Mul(bigOf(op.Initial), pow10(op.Scale))
 		t.bal = map[int]*big.Int{op.A: new(big.Int).Set(t.supply)}
 		h.Steps = append(h.Steps, op)
